@@ -1576,7 +1576,7 @@ Definition call_body (f : string) (args : list expr) : M (pyval * list stmt) :=
                          | _ =>
                              sz <- (match size_of_ctype t with
                                     | None => ret 1
-                                    | Some None => ierr KAttr
+                                    | Some None => ret 32               (* no width: that of a declaration *)
                                     | Some (Some (ELit (VInt n))) => ret n
                                     | Some (Some _) => ierr KAttr
                                     end);;
